@@ -64,7 +64,7 @@ Definition idiv (a b : num) : res :=
 Definition mod_ (v1 : bool) (a b : num) : res :=
   let k := promote (nk a) (nk b) in
   (* get_operands has already turned a Decimal operand into a float when the other one is a float *)
-  if is_zero b && (is_float (nk b) || is_float (nk a)) then special KDbl NaN   (* returns math.nan (a plain float) *)
+  if is_zero b && (is_float (nk b) || is_float (nk a)) then special k NaN   (* Float(math.nan) or math.nan: the promoted kind *)
   else if is_inf b && negb (is_inf a) && negb (is_zero a) && negb (is_nan a)
        then (if v1 then special KDbl NaN
              else Val (mk k (nc a) (nm a) (ne a)))   (* "op1 = type(op2)(op1)": promoted to the result type *)
@@ -82,7 +82,19 @@ Definition mod_ (v1 : bool) (a b : num) : res :=
     else Val (mk KInt Fin (mod_int_kernel x y) e).
 
 (* ---- div by zero (the "divisor == 0" arm of evaluate__div_operator), XPath 2.0+ ---- *)
+(* the result is computed as a plain Python float and wrapped in Float when an operand is an xs:float and the other one
+   is not a plain float: that is the promoted kind, which is a float kind here *)
 Definition div_zero (a b : num) : res :=
+  let exactk k := match k with KInt | KDec => true | _ => false end in
+  let k := promote (nk a) (nk b) in
+  if exactk (nk a) && exactk (nk b) then Err FOAR0001
+  else if is_nan a then special k NaN
+  else if is_zero a then special k NaN
+  else if negb (negative a)
+       then special k (if negative b then NInf else PInf)
+       else special k (if negative b then PInf else NInf).
+(* the arm as it was before the repair: always a plain Python float (xs:double) *)
+Definition div_zero_old (a b : num) : res :=
   let exactk k := match k with KInt | KDec => true | _ => false end in
   if exactk (nk a) && exactk (nk b) then Err FOAR0001
   else if is_nan a then special KDbl NaN
